@@ -12,7 +12,14 @@ MANIFEST = {
 }
 THEOREMS = ["DpapiNg.C12.header_roundtrip", "DpapiNg.C12.secTrailer_roundtrip", "DpapiNg.C12.syntax_roundtrip", "DpapiNg.C12.vtCommands_bounded", "DpapiNg.C12.towersUnpack_bounded", "DpapiNg.C12.tower_padding_aligned", "DpapiNg.C12.bindAck_padding_aligned",
             "DpapiNg.C12.response_roundtrip", "DpapiNg.C12.request_roundtrip", "DpapiNg.C12.fault_roundtrip", "DpapiNg.C12.bindAck_roundtrip",
-            "DpapiNg.C12.bind_roundtrip", "DpapiNg.C12.context_rt", "DpapiNg.C12.result_rt", "DpapiNg.C12.command_rt", "DpapiNg.C12.vt_roundtrip", "DpapiNg.C12.bindNak_roundtrip"]
+            "DpapiNg.C12.bind_roundtrip", "DpapiNg.C12.context_rt", "DpapiNg.C12.result_rt", "DpapiNg.C12.command_rt", "DpapiNg.C12.vt_roundtrip", "DpapiNg.C12.bindNak_roundtrip",
+            # model = interpretation of the layouts / field table regenerated from _bind.py, _verification.py, _epm.py (Gen.Layout*_eq, Gen.FieldsHeader2_eq)
+            "DpapiNg.Rpc.contextPack_eq_layout", "DpapiNg.Rpc.bindPack_eq_layout", "DpapiNg.Rpc.commandPack_eq_layout", "DpapiNg.Rpc.vtPack_eq_layout",
+            "DpapiNg.Rpc.bitmaskValue_eq_layout", "DpapiNg.Rpc.pcontextValue_eq_layout", "DpapiNg.Rpc.header2Value_eq_layout",
+            "DpapiNg.Rpc.header2Unpack_eq_fields", "DpapiNg.Epm.rawPack_eq_layout",
+            # what the models do in terms of the regenerated protocol / command numbers (Gen.ConstFloor*_eq, Gen.ConstCmd*_eq)
+            "DpapiNg.Epm.floorPack_tcp", "DpapiNg.Epm.floorPack_ip", "DpapiNg.Epm.floorPack_rpcCo", "DpapiNg.Epm.floorPack_uuid",
+            "DpapiNg.Rpc.cmdValueUnpack_bitmask", "DpapiNg.Rpc.cmdValueUnpack_pcontext", "DpapiNg.Rpc.cmdValueUnpack_other", "DpapiNg.Rpc.vtCommands_end"]
 RULE = ("well-formed messages of all 8 PDU types (context lists 0..8, transfer syntaxes 0..4, sec_addr of every length mod 4, 0..6 results, object UUID on/off, auth values 0..64), "
         "security trailers, verification trailers (command lists), floors, ept_map requests and replies (0..6 towers, floor payloads covering every tower-length residue mod 8); "
         "termination: every truncation of every generated message + random byte strings ≤ 64 KiB under a dpapi_ng line-event budget of 40·len+4000; distinct by op line")
